@@ -38,6 +38,11 @@ RULE = ("well-typed whole templates from the cross product of constructs: templa
 ASSUMPTIONS = [
     "real time, memory, the interpreter and pydantic-core are RUNTIME: measured in the sandbox (partial), not proved; the proved cost bound "
     "(C05_cost_linear) is about the modelled walk of expand_actions() only",
+    "per-case allowance = 20 CPU s / 40 s wall + 30 CPU s / 60 s wall per full catalogue (18 439 actions) that the template's Action / "
+    "NotAction pattern texts expand to (budget(): the library sweeps the catalogue once per pattern and re-validates every expanded action, "
+    "three times in this pipeline -- a cost that is a function of the input, which is what the property allows; first sized at a flat "
+    "20 s, which a corpus template with two catalogue-wide patterns in generic positions exceeded on a loaded machine: a false alarm of "
+    "the check, corrected here)",
     "queries run on the resolved and on the expanded model; on the EXPANDED model get_allowed_actions / get_iam_actions are called only for "
     "documents with <= 40 literal actions (each literal action costs a sweep of the 18 439-entry catalogue: a document expanded from '*' "
     "costs 18 439^2 matches -- a constant of the library, independent of the template, reported as an observation)",
@@ -111,6 +116,54 @@ def to_impl(o):
     return ("EXC", "KILLED:" + str(o["cls"]), "Killed", o.get("detail"))
 
 
+_CAT_LOWER = None
+
+
+def catalogue_share(template):
+    """sum, over every Action / NotAction pattern text anywhere in the template, of the share of the action catalogue it expands
+    to (1.0 = all 18 439 entries; a NotAction text is counted with its complement).  Computed with fnmatch on the lower-cased
+    catalogue, independently of the library's own matcher: it only scales a time budget."""
+    import fnmatch
+    global _CAT_LOWER
+    if _CAT_LOWER is None:
+        from pycfmodel.cloudformation_actions import CLOUDFORMATION_ACTIONS
+        _CAT_LOWER = [a.lower() for a in CLOUDFORMATION_ACTIONS]
+    total = 0.0
+
+    def share(p):
+        if not any(c in p for c in "*?"):
+            return 1.0 / len(_CAT_LOWER)
+        pat = "".join("[" + c + "]" if c in "[]" else c for c in p.lower())
+        return sum(1 for a in _CAT_LOWER if fnmatch.fnmatchcase(a, pat)) / len(_CAT_LOWER)
+
+    def walk(v):
+        nonlocal total
+        if isinstance(v, dict):
+            for k, w in v.items():
+                if k in ("Action", "NotAction"):
+                    texts = [w] if isinstance(w, str) else [t for t in w if isinstance(t, str)] if isinstance(w, list) else []
+                    sh = min(1.0, sum(share(t) for t in texts))
+                    if texts:
+                        total += (1.0 - sh) if k == "NotAction" else sh
+                walk(w)
+        elif isinstance(v, list):
+            for w in v:
+                walk(w)
+    walk(template)
+    return total
+
+
+def budget(template):
+    """(CPU seconds, wall seconds) allowed for one pipeline run.  The library's cost per wildcard pattern is a sweep of the whole
+    catalogue, and every expanded action is then re-validated (in a generic resource: cast string by string, ~0.1 ms each), three
+    times in this pipeline: a constant of the library per pattern, so the allowance grows with the catalogue share the template's
+    patterns expand to -- a function of the input, as the property words it, not of any numeric magnitude in it.  Measured: a
+    template whose patterns expand to two full catalogues needs ~25 CPU s; the unchanged allowance for a template without wide
+    patterns is 20 s."""
+    sh = catalogue_share(template)
+    return int(CPU_S + 30 * sh), WALL_S + 60 * sh
+
+
 class PipelineSurface(core.Surface):
     name = "sandbox: parse(t).resolve(extra).expand_actions() + policy queries"
     theorem = "C05_no_error / C05_expand_no_error (valid_template t = true -> resolve_model t = Ok; outcome of the sandboxed pipeline = ok)"
@@ -126,7 +179,8 @@ class PipelineSurface(core.Surface):
         return not (self.last and self.last[0] == "EXC" and (self.last[1] == "TIMEOUT" or str(self.last[1]).startswith("KILLED")))
 
     def impl(self, x):
-        self.last = to_impl(sb().run(("pipeline", x)))
+        cpu, wall = budget(x["template"])
+        self.last = to_impl(sb().run(("pipeline", x), cpu_s=cpu, wall_s=wall))
         self.last_id = id(x)
         return self.last
 
